@@ -71,7 +71,7 @@ struct World {
     else if (op < 11) { int pi = (op - 7) % 2; const auto &p = problems()[pi]; if (op < 9) X->setInitState(p.T, p.P, p.t0, p.bc); else X->setInitState(p.timepoints(), p.P, p.bc); mx.prob = pi; }
     else if (op == 11) (void)X->getDimension();
     else if (op == 12) (void)X->generateInitialGuess();
-    else if (op == 13) { Eigen::VectorXd x = X->generateInitialGuess(), g; TimeCost tc; RunCost<D> rc = RunCost<D>::mode(5); (void)X->evaluate(x, g, tc, rc); mx.ws = true; }
+    else if (op == 13) { Eigen::VectorXd x = X->generateInitialGuess(), g; for (int i = 0; i < x.size(); ++i) x(i) = 1.25 + i / 32.0; TimeCost tc; RunCost<D> rc = RunCost<D>::mode(5); (void)X->evaluate(x, g, tc, rc); mx.ws = true; }   // NOT the reference: every block of x differs from the stored problem
     else if (op == 14) { Y.reset(new Opt(*X)); my = mx; }
     else if (op == 15) { if (!Y) Y.reset(new Opt()); *Y = *X; my = mx; }
     else if (op == 16) { std::swap(X, Y); std::swap(mx, my); }
@@ -95,7 +95,7 @@ struct World {
     if (op < 2) { const auto &p = ps[op + 1]; A->setInitState(p.T, p.P, p.t0, p.bc); ma.prob = op + 1; }
     else if (op == 2) { A->setTimeMap(&u->ta); ma.tm = 1; } else if (op == 3) { A->setTimeMap(nullptr); ma.tm = 0; }
     else if (op == 4) { A->setSpatialMap(&u->sa); ma.sm = 1; } else if (op == 5) { A->setSpatialMap(nullptr); ma.sm = 0; }
-    else if (op == 6) { Eigen::VectorXd x = A->generateInitialGuess(), g; TimeCost tc; RunCost<D> rc = RunCost<D>::mode(5); (void)A->evaluate(x, g, tc, rc); ma.ws = true; }
+    else if (op == 6) { Eigen::VectorXd x = A->generateInitialGuess(), g; for (int i = 0; i < x.size(); ++i) x(i) = 1.25 + i / 32.0; TimeCost tc; RunCost<D> rc = RunCost<D>::mode(5); (void)A->evaluate(x, g, tc, rc); ma.ws = true; }
     else if (op == 7) { B.reset(new Opt(*A)); mb = ma; }
     else if (op == 8) { if (!B) B.reset(new Opt()); *B = *A; mb = ma; }
     else if (op == 9) { Opt &r = *A; *A = r; }
